@@ -257,6 +257,22 @@ func checkC15(c c15Case, o *Obs) error {
 			if strings.Join(o2, ",") != strings.Join(order, ",") {
 				return fmt.Errorf("window changes the rows: %v vs %v", o2, order)
 			}
+			if vc.CLI && gofastaBin() != "" && w[0] == c.Start && w[1] == c.End {
+				// the same window through the command line (flag defaults, validation and plumbing in cmd/)
+				dir, cleanup := caseDir("c15var")
+				what := "variants"
+				if vc.Form == "sam" {
+					what = "sam variants"
+				}
+				err := cliAgree(o, what, got, vc.cliArgs(dir, varRunOpts{Start: w[0], End: w[1], AppendSNP: c.AppendSNP})...)
+				cleanup()
+				if err != nil {
+					return err
+				}
+				o.LabelIf(w[0] > 0 && w[1] < 0, "cli:start-alone")
+				o.LabelIf(w[0] < 0 && w[1] > 0, "cli:end-alone")
+				o.LabelIf(w[0] > 0 && w[1] > 0, "cli:both-bounds")
+			}
 			o.LabelIf(w[0] > 0 && w[1] < 0, "start-alone")
 			o.LabelIf(w[0] < 0 && w[1] > 0, "end-alone")
 			o.LabelIf(w[0] > 0 && w[1] > 0, "both-bounds")
